@@ -150,6 +150,12 @@ def run(tier):
         else:
             vd.observe("leak on `%s'" % p, {"kind": kind, "program": p, "observed": r1})
     vd.cov["distinct_nontrivial"] = len(set(p for k, p in meta))
+    # 2a'. the objects of the C API and who owns them (tla/ApiObj.tla; shared with C14): random call sequences over
+    # values and stacks -- create, clone, format, push (copy), push_take (hand over), execute, destroy -- replayed
+    # through libzwerg.h alone; after the model's last owner has destroyed its objects nothing may be left, nothing
+    # destroyed twice
+    import c14
+    c14.api_objects(vd, san, wd, tier, memory=True)
     vd.lap("sanitizer-run")
     # 2b. hooked plain build with the event trace on; the trace is validated against Lifecycle.tla
     tf = os.path.join(wd, "scon-trace.ndjson")
@@ -222,7 +228,7 @@ def run(tier):
     return vd.finish(rule="(1) TLC: lifecycle invariants (get only on live state, con only on dead, all dead after destroy at any "
                      "abandonment point) on the engine model for four families; (2) sampled TLC-enumerated programs, rejected "
                      "queries, every byte value in ten lexical positions, random byte mutations of seed programs, run-time failures, DWARF queries and abandonment after 0..4 pulls on the ASan+UBSan+LSan build with "
-                     "the scon shadow-map hook armed; (3) con/des/dtor event traces of the same runs and of tests/tests.sh on the "
+                     "the scon shadow-map hook armed, and the call sequences over API values and stacks of tla/ApiObj.tla (every object destroyed by its last owner, then the leak check); (3) con/des/dtor event traces of the same runs and of tests/tests.sh on the "
                      "hooked build validated by TLC against tla/Lifecycle.tla; non-trivial = distinct programs",
                      level="model_checking")
 
